@@ -33,8 +33,12 @@
                                 (the harness generates seeded random valid canonical tables and
                                 passes them this way; validity is re-checked by t81_table_ok)
         dhtAfterSof01  0: DHT segments before SOF3, 1: after SOF3 (before SOS)
-        extraSegs01    1: an APP1 segment "verif", a COM segment and an APP14 segment are
-                       inserted between SOI and the first of DHT/SOF3
+        extraSegs01    0: none; 1: an APP1 segment "verif", a COM segment and an APP14 segment are
+                       inserted between SOI and the first of DHT/SOF3;
+                       2: segments with EMPTY payloads (FF FE 00 02, FF E3 00 02), a one-byte APP1
+                       and a long COM after SOI, and an empty COM, an empty APP7 and a one-byte
+                       APP14 directly in front of SOS (after SOF3 and every DHT);
+                       3: a single empty COM after SOI; 4: a single empty APP5 in front of SOS
         err: invalid parameters, a sample >= 2^P, an invalid table, two tables with the same id,
         or a needed category that has no code in the selected table.
 *)
@@ -119,8 +123,13 @@ let register (reg : string -> (string list -> string) -> unit) : unit =
       (match parse_tablespec spec freqs_for with
        | None -> "err"
        | Some tabs ->
-         let extras = if extra = "1" then JllT81.t81_demo_extras else [] in
-         (match JllT81.t81_encode zpred tdl tabs (after = "1") extras zw zh zc zp pixels with
+         let extras, mids = match extra with
+           | "1" -> JllT81.t81_demo_extras, []
+           | "2" -> JllT81.t81_empty_extras, JllT81.t81_empty_mids
+           | "3" -> [(z_of_int 254, [])], []
+           | "4" -> [], [(z_of_int 229, [])]
+           | _ -> [], [] in
+         (match JllT81.t81_encode_x zpred tdl tabs (after = "1") extras mids zw zh zc zp pixels with
           | Some s -> "ok:" ^ hex_of_bytes s
           | None -> "err"))
     | _ -> "?");
